@@ -5,7 +5,7 @@
    original graph computes when those constants hold their dequantized
    values — for every kernel semantics K in which each inserted DEQUANTIZE
    maps the stored constant q c to dq c. *)
-From VF Require Import Base.Prelude Model.Graph Model.Perform Model.Sem Proofs.ListFacts
+From VF Require Import Base.Prelude Model.Graph Model.Perform Model.Sem Spec.Interleave Proofs.ListFacts
      Proofs.PerformStep Proofs.SemProofs.
 
 Section SemRun.
@@ -21,7 +21,7 @@ Section SemRun.
   Hypothesis isq_orig : forall c, isq c = true -> 0 <= c < n0.
 
   (* nm: new tensor x |-> the constant c whose dequantized value it holds *)
-  Definition nmap := list (Z * Z).
+  Notation nmap := Interleave.nmap.
 
   Definition EnvR (nm : nmap) (e0 e : env) : Prop :=
     (forall t, t < n0 -> isq t = false -> e t = e0 t) /\
@@ -129,38 +129,10 @@ Section SemRun.
     - exact R.
   Qed.
 
-  (* ---- an executable check of [inter] (K's contract stays a hypothesis) ---- *)
-  Definition operandRb (nm : nmap) (x0 x : Z) : bool :=
-    (Z.eqb x x0 && (Z.eqb x0 (-1) || ((x0 <? n0) && negb (isq x0))))
-    || existsb (fun p => Z.eqb (fst p) x && Z.eqb (snd p) x0) nm.
-
-  Fixpoint forall2b {A B} (f : A -> B -> bool) (l1 : list A) (l2 : list B) : bool :=
-    match l1, l2 with
-    | [], [] => true
-    | a :: r1, b :: r2 => f a b && forall2b f r1 r2
-    | _, _ => false
-    end.
-
-  Fixpoint interb (nm : nmap) (ops0 ops : list op) : bool :=
-    match ops with
-    | [] => match ops0 with [] => true | _ => false end
-    | o :: r =>
-        if Z.eqb (o_uid o) UID_INSERTED then
-          match o_ins o, o_outs o with
-          | [c], [x] => isq c && (n0 <=? x) && negb (memZ x (map fst nm)) && interb ((x, c) :: nm) ops0 r
-          | _, _ => false
-          end
-        else
-          match ops0 with
-          | o0 :: r0 =>
-              Z.eqb (o_code o) (o_code o0) && Z.eqb (o_uid o) (o_uid o0)
-              && list_eqb Z.eqb (o_outs o) (o_outs o0)
-              && forall2b (operandRb nm) (o_ins o0) (o_ins o)
-              && forallb (fun t => (t <? n0) && negb (isq t)) (o_outs o0)
-              && interb nm r0 r
-          | [] => false
-          end
-    end.
+  (* ---- the executable check of [inter] (Spec/Interleave.v; K's contract
+     stays a hypothesis) is sound ---- *)
+  Notation operandRb := (Interleave.operandRb n0 isq).
+  Notation interb := (Interleave.interb n0 isq).
 
   Lemma list_eqb_Z_eq : forall a b : list Z, list_eqb Z.eqb a b = true -> a = b.
   Proof.
